@@ -8,5 +8,6 @@ CONSTANTS
   Compressed = {FALSE}
   HModes = {"default"}
   Kinds = {"eof", "err", "timeout"}
+CONSTRAINT Emit
 INVARIANTS InvCompleteIsWhole InvOrder InvFailStop InvNothingPastViolation InvDecode
 CHECK_DEADLOCK FALSE
